@@ -14,8 +14,12 @@ step `delete_range` records (lean/PM/Fitter.lean), with the `fill_before` / `fin
 `replace_range_with` passes on — also on two aimed schemas with `definingAsContext` / `definingForContent`.
 Props/C11.lean proves `respects` for these models (`fitsTrivially_respects`, `deleteRange_respects`,
 `fit_range`, `fitter_respects`, `replaceRange_extends_structurally`, `replaceRange_respects`) instead of only monitoring it.
-Search: on the real code: no exception on the bundled-family schemas (totality — decided by search
-only), `check()` + the independent validator, and content preservation computed from to_json().
+Totality: theorems of the model for the termination of the loop of `Fitter.fit`, for deletions and for closed slices of leaf
+nodes (Props/C11.lean, last sections); their decidable guards / hypotheses are evaluated by the driver on every generated
+request (op `fitGuards`, harness/rangeplan.py): the finding class `partial_node_class` exactly, and relationally "guards true
+=> the real replace_step did not raise and did return"; the divergence example of Props/C11.lean is run on the real code.
+Search: on the real code: no exception on the bundled-family schemas, `check()` + the independent validator, and content
+preservation computed from to_json().
 """
 import random
 
@@ -71,11 +75,16 @@ def run(ctx):
                 # planning code modelled in lean/PM/RangeOps.lean, Fitter.lean, FillOrder.lean: exact, including "the code raises"
                 if rangeplan.answer(out) != exp:
                     ctx.mismatch(op, replay, exp, out)
+                if op == "fitGuards":
+                    # relational: the model's guards true => the real replace_step neither raised nor hung
+                    rangeplan.check_fit_guards(ctx, replay, out)
                 continue
             if out.get("ok") != exp:
                 ctx.mismatch(op, replay, "recorded document" if op == "apply" else exp, out if ("err" in out or op != "apply") else "different document")
         del reqs[:], metas[:]
 
+    # the divergence example of Props/C11.lean on the real code (the loop of Fitter.fit does not end) and in the model (outOfFuel)
+    rangeplan.tie_divergence_example(ctx, reqs, metas)
     fam = schemas.family()
     rng_rr = random.Random(ctx.seed * 7919 + 11)     # the replace_range ties draw from their own stream
     # replace_range on the aimed schemas with `definingAsContext` / `definingForContent` (harness/schemas.py), and
@@ -130,7 +139,9 @@ def run(ctx):
                     rangeplan.tie_close_fragment(ctx, info, req, reqs, metas)
                 if bundled:
                     # the Fitter itself (lean/PM/Fitter.lean): the step replace_step emits for the request, exactly
-                    rangeplan.tie_replace_step(ctx, info, d, f, t, req, reqs, metas)
+                    rst = rangeplan.tie_replace_step(ctx, info, d, f, t, req, reqs, metas)
+                    # the guards of the totality theorems (Props/C11.lean), exactly, and: guard true => it did not raise
+                    rangeplan.tie_fit_guards(ctx, info, d, f, t, req, rst, reqs, metas)
                     if name in ("delete_range", "delete"):
                         # delete_range as a whole (widening + Fitter): the recorded step, exactly
                         rangeplan.tie_delete_range_step(ctx, info, d, f, t, reqs, metas)
@@ -195,7 +206,11 @@ def run(ctx):
         rule="a case is (schema, valid document, one replace-family operation with in-range pair-aligned positions and a "
              "schema-valid slice cut from another document / a valid node); bundled-family schemas (totality) and random "
              "well-founded schemas (validity, content preservation); non-trivial = a step was emitted",
-        level_note="totality ('never raises') is decided by search only: the fitting algorithm is modelled (lean/PM/Fitter.lean, exact tie) but its termination and assertion-freeness are not proven")
+        level_note="totality ('never raises'): the fitting algorithm is modelled (lean/PM/Fitter.lean, exact tie). Theorems of the model: "
+                   "the loop of Fitter.fit terminates and its fuel is exact (outOfFuel iff the loop reaches the one state it maps to itself); "
+                   "replace_step returns for every deletion and for every closed slice of leaf/text nodes on a valid document "
+                   "(delete_total, deleteRange_total, insertInline_total). For other slices absence of exceptions is decided by search, "
+                   "with the relational tie 'guards true => replace_step did not raise and did return' (op fitGuards)")
 
 
 if __name__ == "__main__":
